@@ -3,7 +3,7 @@
    one logical hkeyElements of the tree.
 
    Preservation of the tree invariant [mtwf] by Set / Remove (C05_map_wf_preserved, and with it the
-   full C02 statement over the tree) is NOT proved yet; the tree model is validated in lock step
+   full C02 statement over the tree) is proved in C05_maptree.v / C02.v (this header predates those files); the tree model is also validated in lock step
    against the Go code (harness "maptree", engine chk_maptree) together with the executable
    invariant checker MapTreeInv.mtwfb. *)
 From Coq Require Import ZArith NArith List Bool.
